@@ -7,16 +7,16 @@ THEOREMS = ["Rink.Sandbox.serve_good", "Rink.Sandbox.sandbox_refines", "Rink.San
             "Rink.Sandbox.one_reply_per_request", "Rink.Sandbox.unfixed_next_request_crashes",
             "Rink.Sandbox.unfixed_sandbox_wedges"]
 SVC = os.path.join(vlib.HARNESS, "target", "release", "sbx_service")
-KINDS = ["add", "panic", "sleep", "oom", "exit", "big"]
+KINDS = ["add", "panic", "sleep", "oom", "exit", "big", "huge"]
 TIMEOUT_MS = 400
 LIMIT = 64 << 20
 
 def concretise(kinds):
-    return ["%s:%d" % (k, i + 1) if k in ("add", "sleep", "big") else k for i, k in enumerate(kinds)]
+    return ["%s:%d" % (k, i + 1) if k in ("add", "sleep", "big", "huge") else k for i, k in enumerate(kinds)]
 
 def own(op):
     k = op.split(":")[0]
-    return {"add": "ok:" + op.split(":")[-1], "big": "ok:" + op.split(":")[-1], "sleep": "timeout", "panic": "panic", "oom": "crashed", "exit": "crashed"}[k]
+    return {"add": "ok:" + op.split(":")[-1], "big": "ok:" + op.split(":")[-1], "sleep": "timeout", "panic": "panic", "oom": "crashed", "exit": "crashed", "huge": "crashed"}[k]
 
 def run_seq(args):
     ops, gap = args
@@ -96,7 +96,7 @@ def run(c):
     c.coverage.update({
         "evaluations": len(results), "distinct_nontrivial": len(set(" ".join(o) for o, _, _, _ in results)),
         "traces_validated_against_impl": len(results), "requests": nreq,
-        "rule": "every sequence of length <= %d over {normal, panic, overrun of the time limit, allocation beyond the memory limit, child exit, 1 MiB payload} (exhaustive: each fault in every position), %d random sequences of length 5, gaps of 0/5/30 ms and of 0.75x / 1.25x / 2x the time limit between requests, each on a fresh parent process driving the real Sandbox; replies compared with the request's own outcome and with the Lean model" % (maxlen, extra),
+        "rule": "every sequence of length <= %d over {normal, panic, overrun of the time limit, allocation beyond the memory limit, child exit, 1 MiB payload, a request larger than the memory limit} (exhaustive: each fault in every position), %d random sequences of length 5, gaps of 0/5/30 ms and of 0.75x / 1.25x / 2x the time limit between requests, each on a fresh parent process driving the real Sandbox; replies compared with the request's own outcome and with the Lean model" % (maxlen, extra),
         "samples": [" ".join(o) for o, _, _, _ in results[5:11]], "exhaustive": True,
     })
 
